@@ -181,7 +181,9 @@ def conventional_api(draw, lro=True, streaming=True):
             methods.append(m)
     if streaming and draw(st.booleans()):
         methods.append({"name": "Chat", "input": P + "Detail", "output": P + "Detail", "cs": True, "ss": draw(st.booleans())})
-    svc = {"name": "Library", "host": "lib.acme.com", "scopes": ["https://www.googleapis.com/auth/cloud-platform"], "methods": methods}
+    # the default host may carry an explicit port (showcase: localhost:7469)
+    svc = {"name": "Library", "host": draw(st.sampled_from(["lib.acme.com"] * 4 + ["lib.acme.com:8443"])),
+           "scopes": ["https://www.googleapis.com/auth/cloud-platform"], "methods": methods}
     if draw(st.integers(0, 4)) == 0:
         svc["api_version"] = "v1_20240101"
     api = {"files": [{"name": "acme/lib/v1/lib.proto", "package": PKG, "messages": msgs, "enums": enums, "services": [svc]}]}
